@@ -93,9 +93,11 @@ def main():
     ap.add_argument("--root", default="/tmp/pristine")
     ap.add_argument("--workers", type=int, default=12)
     ap.add_argument("--second", action="store_true")
+    ap.add_argument("--third", action="store_true")
     a = ap.parse_args()
     import mutsweep
     mutsweep.SECOND = a.second
+    mutsweep.THIRD = a.third
     stable = json.load(open("/root/.vp/BASELINE.json"))["stable_pass"]
     rows = [json.loads(l) for l in open(a.sweep)]
     want = set(a.files.split(",")) if a.files else None
